@@ -312,7 +312,7 @@ func (comp) Extra(prop string, tier string, seed int64, scratch string) *core.Ex
 		c.add(fmt.Sprintf("rounds_gomaxprocs_%d", c.procs), 1)
 		rs := seed*1_000_003 + int64(r)
 		steps := []func(*collector, int64, int){
-			phaseTxAddOnly, phaseTxMixed, phaseTxLimits, phaseTxEvict, phaseTxClear, phaseTxDiagnose,
+			phaseTxAddOnly, phaseTxMixed, phaseTxLimits, phaseTxEvict, phaseTxClear, phaseTxAddClear, phaseTxDiagnose,
 			phaseImmunity, phaseCrossTx, phaseImmunityClear, phaseLRU, phaseCapacityLRU, phaseAdapter, phaseFifo, phaseTimeCache, phaseConcurrentMap,
 		}
 		switch c.prop {
@@ -327,7 +327,7 @@ func (comp) Extra(prop string, tier string, seed int64, scratch string) *core.Ex
 		case "C20": // FIFO sharded cache under concurrent use
 			steps = []func(*collector, int64, int){phaseFifo}
 		case "C05": // the two indexes and the counters at quiescent instants of concurrent histories
-			steps = []func(*collector, int64, int){phaseTxLimits, phaseTxMixed, phaseTxEvict, phaseTxAddOnly, phaseTxClear, phaseConcurrentMap}
+			steps = []func(*collector, int64, int){phaseTxLimits, phaseTxMixed, phaseTxEvict, phaseTxAddOnly, phaseTxClear, phaseTxAddClear, phaseConcurrentMap}
 		case "C16": // the storage unit after concurrent use: cache and persister agree at every quiescent instant
 			steps = []func(*collector, int64, int){phaseStorageUnit}
 		}
